@@ -413,6 +413,8 @@ def apply_x(desc, d, xr):
             return xr.concat([d] * desc["n"], dim=desc["dim"])
         parts = [d, d.isel(**{desc["dim"]: slice(0, 1)})] if desc.get("partial") else [d, d]
         return xr.concat(parts, dim=desc["dim"])
+    if m == "expand_dims":
+        return d.expand_dims(desc["dim"], axis=-1 if desc.get("last") else 0)
     if m == "copy":
         how = desc["how"]
         if how == "copy_shallow":
@@ -433,6 +435,8 @@ def apply_ux(desc, u, world):
     if m == "ux_isel":
         idx = desc["idx"]
         return u.isel(**{desc["dim"]: (np.array(idx) if desc.get("as_array") else idx)})
+    if m == "ux_subset":
+        return u.subset.nearest_neighbor(tuple(desc["center"]), k=desc["k"], element=desc["element"])
     if m == "integrate":
         return u.integrate()
     if m == "gradient":
@@ -451,7 +455,7 @@ def apply_ux(desc, u, world):
     raise KeyError(m)
 
 
-UX_OPS = ("ux_isel", "integrate", "gradient", "difference", "topo", "remap", "get_dual")
+UX_OPS = ("ux_isel", "ux_subset", "integrate", "gradient", "difference", "topo", "remap", "get_dual")
 DEEP = ("copy_deep", "copy_default", "deepcopy")
 
 
@@ -472,6 +476,8 @@ def method_name(desc):
         return "deepcopy" if desc["how"] in DEEP else "copy"
     if m == "ux_isel":
         return "grid-isel"
+    if m == "ux_subset":
+        return "subset"
     if m == "topo":
         return "topological_agg"
     return m
@@ -483,7 +489,7 @@ def kind_of(desc):
         "arith": "arith", "ufunc": "ufunc", "where": "whereOp", "clip": "clip", "fillna": "fillna", "astype": "astype",
         "assign_coords": "assignCoords", "assign_attrs": "assignCoords", "drop_vars": "assignCoords",
         "cum": "cumulative", "rolling": "rolling", "cumulative": "rolling", "reduce": "reduce",
-        "transpose": "transpose", "rename": "rename", "concat": "concat",
+        "transpose": "transpose", "rename": "rename", "concat": "concat", "expand_dims": "concat",
     }.get(m) or ("indexGrid" if m == "index" and desc["dim"] in GRID_DIMS else "indexOther" if m == "index" else None)
 
 
@@ -514,7 +520,9 @@ def model_op(desc, pre_dims, post_dims, extra):
         return f"{8 if desc['how'] == 'new' else 7} {dim_code(d) - 3} {post[d]}"
     if m == "copy":
         return f"9 {1 if desc['how'] in DEEP else 0} {1 if extra.get('fresh') else 0}"
-    if m == "ux_isel":
+    if m == "expand_dims":
+        return f"17 {dim_code(desc['dim']) - 3} {1 if desc.get('last') else 0}"
+    if m in ("ux_isel", "ux_subset"):
         c = extra.get("counts", (0, 0, 0))
         return f"10 {c[0]} {c[1]} {c[2]}"
     if m == "integrate":
@@ -538,18 +546,21 @@ def model_op(desc, pre_dims, post_dims, extra):
 # ----------------------------------------------------------------------------------------------
 
 
+def arrays_equal(a, b):
+    if a.dtype.kind == "O" or b.dtype.kind == "O":
+        # e.g. shift() of a boolean array: object dtype holding NaN
+        return all((x is y) or (x == y) or (isinstance(x, float) and isinstance(y, float) and x != x and y != y)
+                   for x, y in zip(a.reshape(-1).tolist(), b.reshape(-1).tolist()))
+    return bool(np.array_equal(a, b, equal_nan=a.dtype.kind in "fc"))
+
+
 def same_values(r, t):
     a, b = np.asarray(r.values), np.asarray(t.values)
     if tuple(r.dims) != tuple(t.dims) or a.shape != b.shape:
         return "dims/shape"
     if a.dtype != b.dtype:
         return f"dtype {a.dtype} vs {b.dtype}"
-    if a.dtype.kind == "O":
-        # e.g. shift() of a boolean array: object dtype holding NaN
-        ok = all((x is y) or (x == y) or (isinstance(x, float) and isinstance(y, float) and x != x and y != y)
-                 for x, y in zip(a.reshape(-1).tolist(), b.reshape(-1).tolist()))
-    else:
-        ok = np.array_equal(a, b, equal_nan=a.dtype.kind in "fc")
+    ok = arrays_equal(a, b)
     if not ok:
         return "values"
     if set(map(str, r.coords)) != set(map(str, t.coords)):
@@ -640,7 +651,20 @@ def run_program(env, inp, out, tag="gen", chooser=None, depth=0):
                 env.ux_raises[key] = env.ux_raises.get(key, 0) + 1
                 if not sub and not gcoord and judge:
                     mo = model_op(desc, pre_dims, None, dict(counts=(1, 1, 1), closed=world.closed[state["grid"]]))
-                    if d.ask("C10.step", env.table_codes(), enc_state(state), mo) != "none":
+                    ms_ = d.ask("C10.step", env.table_codes(), enc_state(state), mo)
+                    if ms_ != "none" and m in ("ux_isel", "ux_subset"):
+                        # isel on a grid dimension (and the subset accessors built on it) is in the property's list for
+                        # ANY layout: indexing is by name, so it is defined wherever the element dimension sits
+                        gd0 = [dd for dd, _ in pre_dims if dd in GRID_DIMS][0]
+                        layout = "element-dim-last" if pre_dims[-1][0] == gd0 else "element-dim-not-last"
+                        out["failures"].append(dict(
+                            signature=f"C10/op={name}/{layout}/raises={type(err).__name__}",
+                            what=(f"{name} on a grid dimension raises {type(err).__name__} for an array with dims {pre_dims} "
+                                  f"attached to a consistent grid ({layout}): {str(err)[:160]}; indexing by name is defined "
+                                  "for every layout (transpose-then-isel = isel-then-transpose)"),
+                            input=here, impl=dict(error=f"{type(err).__name__}: {err}"[:300]),
+                            model=dict(op=mo, model=ms_), clauses=["grid_isel_by_name"]))
+                    elif ms_ != "none":
                         out["mismatches"].append(("C10/ux-op-raises/" + name, here,
                                                   f"{type(err).__name__}: {err}"[:300], "model: defined"))
                 continue
@@ -655,7 +679,7 @@ def run_program(env, inp, out, tag="gen", chooser=None, depth=0):
         steps += 1
         path, detail = tr.classify(r)
         # ---- observe the result
-        if m == "ux_isel":
+        if m in ("ux_isel", "ux_subset"):
             post = world.observe(r, closed=False, derived=True, detect_share=False)
         elif m == "get_dual":
             post = world.observe(r, closed=world.closed[state["grid"]], derived=world.derived[state["grid"]],
@@ -709,6 +733,32 @@ def run_program(env, inp, out, tag="gen", chooser=None, depth=0):
         bad_values = None
         if t_next is not None:
             bad_values = same_values(r, t_next)
+        elif m in ("ux_isel", "ux_subset") and state["grid"] >= 0 and len([1 for dd, _ in pre_dims if dd in GRID_DIMS]) == 1:
+            gd0 = [dd for dd, _ in pre_dims if dd in GRID_DIMS][0]
+            ref = None
+            if m == "ux_isel" and desc["dim"] == "n_face" and gd0 == "n_face":
+                # independent oracle: plain xarray's isel BY NAME with the requested faces
+                idx0 = desc["idx"] if isinstance(desc["idx"], list) else [desc["idx"]]
+                ref = t.isel({gd0: idx0})
+                ctx.hit("grid-isel-values:plain-xarray-isel-by-name")
+            elif pre_dims[-1][0] != gd0:
+                # metamorphic oracle: the same selection on the canonical layout (element dimension last), moved back
+                try:
+                    can = apply_ux(desc, u.transpose(..., gd0), world)
+                    ref = plain_of(xr, can).transpose(*[dd for dd, _ in pre_dims])
+                    ctx.hit("grid-isel-values:isel-then-transpose")
+                except Exception:
+                    ref = None
+            if ref is not None:
+                a, b = np.asarray(r.values), np.asarray(ref.values)
+                if tuple(map(str, r.dims)) != tuple(map(str, ref.dims)) or a.shape != b.shape:
+                    bad_values = f"dims/shape {list(zip(map(str, r.dims), a.shape))} vs {list(zip(map(str, ref.dims), b.shape))}"
+                elif a.dtype != b.dtype:
+                    bad_values = f"dtype {a.dtype} vs {b.dtype}"
+                elif not arrays_equal(a, b):
+                    bad_values = "values"
+            if pre_dims[-1][0] != gd0:
+                ctx.hit("grid-isel:element-dim-not-last")
         clauses = verdict[5:].split(",") if verdict.startswith("fail") else []
         if m == "copy" and desc["how"] in DEEP and post["grid"] >= 0 and cur_grid is not None:
             # "an equal … grid": the library's own Grid.__eq__ on (copy's grid, original grid)
@@ -731,7 +781,11 @@ def run_program(env, inp, out, tag="gen", chooser=None, depth=0):
                 what = f"{name} returns a UxDataArray whose uxgrid is None (constructed by {detail})"
             elif c0 == "dims_match_grid":
                 gd = [dd for dd, _ in post["dims"] if dd in GRID_DIMS]
-                if m == "get_dual":
+                if m in ("ux_isel", "ux_subset"):
+                    sig = f"C10/op={name}/dims-differ-from-subgrid"
+                    what = (f"{name} on a grid dimension of an array with dims {pre_dims}: the result has dims {post['dims']} but "
+                            f"is attached to a sub-grid with counts {post['heap'][post['grid']][0]}")
+                elif m == "get_dual":
                     sig = "C10/op=get_dual/nodes-with-fewer-than-3-faces/dims-differ-from-dual-grid"
                     what = ("get_dual of a mesh with nodes that have fewer than 3 faces (every partial mesh): the data keep their "
                             f"length but the dual grid has another element count: dims {post['dims']} vs dual counts "
@@ -763,6 +817,14 @@ def run_program(env, inp, out, tag="gen", chooser=None, depth=0):
             elif c0 == "shape_as_xarray":
                 sig = f"C10/op={name}/shape-differs-from-xarray"
                 what = f"{name}: result dims {post['dims']} but plain xarray gives {post_dims}"
+            elif c0 == "grid_isel_by_name":
+                sig = f"C10/op={name}/not-by-name/dims-order-or-length"
+                what = (f"{name} on a grid dimension: result dims {post['dims']} are not the input dims {pre_dims} with the grid "
+                        "dimension's length replaced by the sub-grid's count")
+            elif is_ux:
+                sig = f"C10/op={name}/values-differ-from-isel-by-name"
+                what = (f"{name} on dims {pre_dims}: {bad_values} differ from indexing the grid dimension BY NAME "
+                        "(plain xarray isel on the same data / the same selection on the transposed array)")
             else:
                 sig = f"C10/op={name}/values-differ-from-xarray"
                 what = f"{name}: {bad_values} differ from what plain xarray computes on the same data"
@@ -819,10 +881,10 @@ def clean_program(p):
 DTYPES = ["float64", "float64", "float32", "int64", "int32", "bool"]
 
 
-def gen_start(rng, world_counts, gid, centre=None, nlead=None, dtype=None, gcoord=None):
+def gen_start(rng, world_counts, gid, centre=None, nlead=None, dtype=None, gcoord=None, lead=None):
     centre = centre or rng.choice(["n_face", "n_node", "n_edge"])
     nlead = rng.choice([0, 1, 1, 2]) if nlead is None else nlead
-    lead = [[OTHER[i], rng.randint(2, 4)] for i in range(nlead)]
+    lead = [[OTHER[i], rng.randint(2, 4)] for i in range(nlead)] if lead is None else [list(x) for x in lead]
     n = world_counts[gid][GRID_DIMS[centre]]
     size = n
     for _, l in lead:
@@ -935,6 +997,8 @@ def candidates(rng, t, state, world_counts, closed, derived, heap_n):
     out.append(dict(m="rename", how="name", new=rng.choice(["w", "q"])))
     if free:
         out.append(dict(m="concat", how="new", dim=free[0], n=rng.choice([2, 3])))
+    if free:
+        out += [dict(m="expand_dims", dim=free[0], last=True), dict(m="expand_dims", dim=free[0], last=rng.random() < 0.5)]
     out += [dict(m="copy", how=h) for h in ("copy_shallow", "copy.copy", "copy_deep", "copy_default", "deepcopy")]
     # ---- uxarray's own operations (only where the model says they are defined: one grid dimension, last)
     if state["isUx"] and state["grid"] >= 0 and len(gdims) == 1:
@@ -942,15 +1006,28 @@ def candidates(rng, t, state, world_counts, closed, derived, heap_n):
         cnt = world_counts[g]
         gcoord = any(set(map(str, v.dims)) & set(GRID_DIMS) for v in t.coords.values())
         if not gcoord:
-            for _ in range(3):
+            # indexing a grid dimension is BY NAME: generated for every layout (element dimension last or not).  When
+            # it is not last, element indices both below and above the length of the last axis are wanted (a
+            # positional implementation raises on the latter and silently slices the wrong axis on the former).
+            last_len = sizes[dims[-1]]
+            reps = 3 if dims[-1] == gdims[0] else 6
+            for _ in range(reps):
                 dim = rng.choice(["n_face", "n_face", "n_node", "n_edge"])
                 n = cnt[GRID_DIMS[dim]]
-                if rng.random() < 0.15:
+                r0 = rng.random()
+                if r0 < 0.15:
                     idx, arr = rng.randrange(n), False
+                elif r0 < 0.5 and dims[-1] != gdims[0]:
+                    lim = max(1, min(n, last_len))
+                    idx = sorted(rng.sample(range(lim), rng.randint(1, min(lim, 3))))
+                    arr = rng.random() < 0.5
                 else:
                     idx = sorted(rng.sample(range(n), rng.randint(1, min(n, 6))))
                     arr = rng.random() < 0.5
                 out.append(dict(m="ux_isel", dim=dim, idx=idx, as_array=arr))
+            if not derived[g]:
+                out.append(dict(m="ux_subset", center=[rng.choice([-20.0, 0.0, 35.0, 150.0]), rng.choice([-30.0, 0.0, 25.0, 60.0])],
+                                k=rng.randint(1, min(4, cnt[2])), element=rng.choice(["nodes", "face centers", "edge centers"])))
         if dims[-1] == gdims[0] and not derived[g]:
             c = dims[-1] if kind in "fiu" else "-"   # the numeric operators are not defined on bool / object data
             if c == "n_face":
@@ -1080,6 +1157,40 @@ def directed(env, rng, base, wc, closed):
     return progs
 
 
+def layouts(env, rng, base, wc):
+    """grid-dimension isel / subset on arrays whose element dimension is NOT last (after transpose / expand_dims), with
+    leading sizes both smaller and larger than the number of selected elements and than the selected indices"""
+    progs = []
+    for centre in ("n_face", "n_node", "n_edge"):
+        for gid in (0, 1):
+            big = max(wc[gid]) + 1
+            for lead, with_coords in (([["t", 2]], False), ([["t", 2]], True), ([["t", big]], False),
+                                      ([["t", 2], ["lev", 3]], False)):
+                if gid == 1 and lead[0][1] == big:
+                    continue
+                sp = gen_start(rng, wc, gid, centre=centre, dtype=rng.choice(["float64", "int64"]), gcoord=False, lead=lead)
+                sp["coords"] = {"t": ("t", [10 * (i + 1) for i in range(lead[0][1])])} if with_coords else {}
+                names = [d for d, _ in lead]
+                if len(lead) == 1:
+                    movers = [[dict(m="transpose", how="T")], [dict(m="expand_dims", dim="aux", last=True)],
+                              [dict(m="concat", how="new", dim="ens", n=2), dict(m="transpose", how="ellipsis", order=["ens"])]]
+                else:
+                    movers = [[dict(m="transpose", how="names", order=[names[0], centre, names[1]])],
+                              [dict(m="transpose", how="names", order=[centre] + names)]]
+                ops = []
+                for dim in ("n_face", "n_node", "n_edge"):
+                    n = wc[gid][GRID_DIMS[dim]]
+                    for idx in ([0, 1], [0, 1, 2], 0, [n - 1], [1, n - 2]):
+                        ops.append(dict(m="ux_isel", dim=dim, idx=idx, as_array=isinstance(idx, list) and rng.random() < 0.5))
+                ops.append(dict(m="ux_subset", center=[0.0, 0.0], k=2, element="face centers"))
+                ops.append(dict(m="ux_subset", center=[30.0, 10.0], k=1, element="nodes"))
+                for mv in movers:
+                    chosen = ops if (lead[0][1] != 2 or not with_coords) else ops[:5]
+                    for op in chosen:
+                        progs.append(dict(base, start=sp, program=mv + [op]))
+    return progs
+
+
 def run(ctx):
     ctx.rule = ("3 grids per run (closed / partial / mixed, from harness/meshes) × start arrays (face-, node-, edge-centred, 0..2 leading "
                 "dims, index / non-index / scalar / grid-dimension coordinates, float64/float32/int64/int32/bool, NaNs) × [one directed "
@@ -1093,8 +1204,12 @@ def run(ctx):
         "values/dtype/dims are compared with the same program on a plain xarray.DataArray (NumPy equality): differential test",
         "grid independence is observed through np.shares_memory on node_lon/node_lat/face_node_connectivity of the two Grid objects",
         "UxDataset half of the anchors (core/dataset.py) cannot be exercised: the installed xarray rejects Dataset(Dataset)",
-        "uxarray's own operations are only generated where the model defines them (one grid dimension, last; no coordinate along "
-        "it; not on a sub-grid produced by Grid.isel) — raises outside that domain are counted in `ux_ops_raising`, not judged",
+        "isel on a grid dimension and subset.nearest_neighbor are generated for EVERY layout (element dimension last or not: after "
+        "transpose / expand_dims / concat+transpose), their result is judged by the Lean step spec (by-name clause), values are "
+        "compared with plain xarray's isel by name (face data, n_face) and with isel-then-transpose; a raise is a failure",
+        "integrate / gradient / difference / topological_* / remap / get_dual are only generated where the model defines them (one "
+        "grid dimension, LAST — DESIGN 'Interpretation choices'; no coordinate along it; not on a sub-grid produced by Grid.isel) — "
+        "raises outside that domain are counted in `ux_ops_raising_outside_model_domain`, not judged",
     ]
     env = Env(ctx)
     out = dict(failures=[], mismatches=[], skipped=[])
@@ -1120,6 +1235,8 @@ def run(ctx):
                 ctx.hit(f"grid:{m.kind or 'mesh'}:{'closed' if m.closed else 'partial'}")
             for inp in directed(env, rng, base, wc, closed):
                 run_program(env, inp, out, tag="directed")
+            for inp in layouts(env, rng, base, wc):
+                run_program(env, inp, out, tag="layout")
             nprog = ctx.n(150, 1500)
             chooser = make_chooser(env, rng, 3)
             for _ in range(nprog):
